@@ -1170,3 +1170,49 @@ func assetOrderScenario(g *gen, idx int) *scenario {
 	s.run = func() (map[string][]byte, error) { return runEngine(p) }
 	return s
 }
+
+// ------------------------------------------------------------------------------------------------
+// family: urns/percent-escape — URN paths that contain a literal percent escape of an escape ("%2523" = the text "%23"):
+// gocommon's urns parser (outside the goflow module) undoes its escapes by ranging over a Go map, so whether "%25" or
+// "%23" is replaced first differs from call to call.  Probe for the known finding urns:percent-escape-map-order.
+
+type urnParams struct {
+	Feature string        `json:"feature"`
+	Raw     []string      `json:"raw"`
+	Engine  *engineParams `json:"engine"`
+}
+
+func urnEscapeScenario(g *gen, idx int) *scenario {
+	paths := []string{"a%2523b", "x%253Fy", "p%2523q%253Fr", "k%252523"}
+	raw := []string{}
+	for i, n := 0, g.r.Range(1, 3); i < n; i++ {
+		raw = append(raw, "ext:"+hx.Pick(g.r, paths))
+	}
+	f := newFlowB(g, "URN escapes")
+	f.addNode([]any{
+		obj{"uuid": g.uuid(), "type": "add_contact_urn", "scheme": "ext", "path": strings.TrimPrefix(raw[0], "ext:")},
+		obj{"uuid": g.uuid(), "type": "send_msg", "text": "@urns.ext | @(json(contact.urns)) | @(urn_parts(urns.ext).path)"}}, nil, 1)
+	def := f.finish()
+	assetsObj, _ := stdAssets(g, []any{def}, 0, nil, obj{})
+	contact := contactJSON(g, map[string]string{}, nil)
+	contact["urns"] = append([]string{"tel:+12065551212"}, raw...)
+	trigger := obj{"type": "manual", "triggered_on": "2024-01-01T00:00:00.000000000-00:00", "environment": envJSON,
+		"flow": obj{"uuid": f.uuid, "name": f.name}, "contact": contact}
+	p := &urnParams{Feature: "percent-escape", Raw: raw,
+		Engine: &engineParams{Feature: "urn-escapes", Assets: mustJSON(assetsObj), Trigger: mustJSON(trigger)}}
+	s := &scenario{Family: "urns/percent-escape", Index: idx, Params: p, Nontrivial: true}
+	s.run = func() (map[string][]byte, error) {
+		out, err := runEngine(p.Engine)
+		if err != nil {
+			out = map[string][]byte{"engine_error": []byte(err.Error())}
+		}
+		var sb strings.Builder
+		for _, r := range p.Raw {
+			scheme, path, query, display := urns.URN(r).ToParts()
+			fmt.Fprintf(&sb, "%s -> %q %q %q %q normalized %q\n", r, scheme, path, query, display, urns.URN(r).Normalize())
+		}
+		out["parts"] = []byte(sb.String())
+		return out, nil
+	}
+	return s
+}
